@@ -112,10 +112,26 @@ def _hash_site(ctx, pr, u, gdefs):
     # loop over the real items of the group?
     lp = parent(enclosing_stmt(u))
     loopvar = None
+    axis_offset = 0
     if isinstance(lp, ast.For) and lp is not pr.group_loop:
         loopvar = U(lp.target)
+        it = lp.iter
         if U(lp.iter) == 'range(%s)' % gname:
             grouped_ok = True
+        elif isinstance(it, ast.Subscript) and isinstance(sub.value, ast.Name) and sub.value.id == loopvar and \
+                isinstance(lp.target, ast.Name):
+            # iteration over the leading real items of the buffer itself:  for item in buffer[:g]:  update(item[0:n, 0:m])
+            first = it.slice.elts[0] if isinstance(it.slice, ast.Tuple) and it.slice.elts else it.slice
+            rest = it.slice.elts[1:] if isinstance(it.slice, ast.Tuple) else []
+            whole = all(isinstance(r, ast.Slice) and r.lower is None and r.upper is None and r.step is None for r in rest)
+            if isinstance(first, ast.Slice) and (first.lower is None or U(first.lower) == '0') and first.step is None and \
+                    first.upper is not None and U(first.upper) == gname and whole:
+                grouped_ok = True
+                grouped_pos = -1
+                axis_offset = 1
+                ndim += 1
+            else:
+                probs.append('the per-item loop ranges over `%s`, not over the real items of the group (%s)' % (U(lp.iter), gname))
         else:
             probs.append('the per-item loop ranges over `%s`, not over the real items of the group (%s)' % (U(lp.iter), gname))
     for j, e in enumerate(elts):
@@ -138,7 +154,7 @@ def _hash_site(ctx, pr, u, gdefs):
         if 'padded' in up or 'blockshape' in up or 'shape_pad' in up:
             probs.append('position %d: bound `%s` is a padded extent: padding samples are hashed' % (j, up))
             continue
-        want_ax = (('IL', 'XL', 'Z') if ndim == 3 else ('XL', 'Z'))[j]
+        want_ax = (('IL', 'XL', 'Z') if ndim == 3 else ('XL', 'Z'))[j + axis_offset]
         ax = axis_of_text(up)
         if ax in ('IL', 'XL', 'Z') and ax != want_ax:
             probs.append('position %d (%s axis) is bounded by `%s`, a %s extent' % (j, want_ax, up, ax))
